@@ -271,7 +271,11 @@ def run_files(chk, tagname):
     # the weights are those of the column the user names (--weightcol): a second weight column with other values in the same file
     # (weights are positive, not bounded by one: an optimal-weight column has a free normalisation)
     combos += [(3, 'True', 'True', 'False', 'LIST', 'W_NN'), (1, 'True', 'False', 'True', 'LIST', 'W_NN'), (2, 'False', 'True', 'False', 'LIST', 'W_NN')]
-    for du, weights, acc, mc, ebinalg, wcol in combos:
+    combos = [c + ('False',) for c in combos]
+    # the gray filter in front of one detector unit: a history standard → gray → standard (and weighted) for the same DU in one process; the reference
+    # responses are built from the files themselves, not through the package's loaders
+    combos += [(2, 'False', 'True', 'False', 'LIST', 'W_MOM', 'True'), (2, 'False', 'True', 'False', 'LIST', 'W_MOM', 'False'), (2, 'True', 'True', 'False', 'LIST', 'W_MOM', 'True')]
+    for du, weights, acc, mc, ebinalg, wcol, gray in combos:
         n = int(g.integers(300, 1500))
         pi = g.integers(30, 260, n)
         phi = g.uniform(-math.pi, math.pi, n)
@@ -288,13 +292,13 @@ def run_files(chk, tagname):
                     cols = evh.columns + fits.ColDefs([fits.Column(name=wcol, format='E', array=g.uniform(0.05, 2.5, n).astype(numpy.float32))])
                     h['EVENTS'] = fits.BinTableHDU.from_columns(cols, header=evh.header, name='EVENTS')
                     h.writeto(path, overwrite=True)
-            desc = dict(op='xpbin-PCUBE', du=du, weights=weights, acceptcorr=acc, mc=mc, edges=edges, events=n, ebinalg=ebinalg, weightcol=wcol)
+            desc = dict(op='xpbin-PCUBE', du=du, weights=weights, acceptcorr=acc, mc=mc, edges=edges, events=n, ebinalg=ebinalg, weightcol=wcol, grayfilter=gray)
             ebargs = ['--ebinalg', 'LIST', '--ebinning', str(edges)] if ebinalg == 'LIST' else ['--ebinalg', 'EQP', '--ebins', '3', '--emin', '1.', '--emax', '12.']
             chk.case(desc, nontrivial=True)
             try:
                 o = xpbin(**PARSER.parse_args([path, '--overwrite', 'True', '--algorithm', 'PCUBE'] + (['--irfname', irf] if wcol == 'W_MOM' else []) + [   # left to its default, the response set is the one the file names
                                                '--weights', weights, '--acceptcorr', acc,
-                                               '--mc', mc, '--weightcol', wcol] + ebargs).__dict__)[0]
+                                               '--mc', mc, '--weightcol', wcol, '--grayfilter', gray] + ebargs).__dict__)[0]
             except BaseException as e:
                 chk.fail('impl', 'xpbin PCUBE failed: %s: %s (%s)' % (type(e).__name__, e, desc), dict(oracle='pcube', args=desc, error=str(e)))
                 continue
@@ -310,7 +314,12 @@ def run_files(chk, tagname):
                 # the PI-channel centre in single precision (the PI column is float32 and numpy keeps that precision)
                 e = numpy.array(mcx['MC_ENERGY'], dtype=float) if mc == 'True' else \
                     (numpy.array(ev['PI'], dtype=numpy.float32) * numpy.float32(0.04) + numpy.float32(0.02)).astype(float)
-        modf, aeff = load_modf(irf, du), load_arf(irf, du, simple_weighting=(weights == 'True'))
+        # the reference responses are read from the CALDB files themselves (not through the package's loaders and their cache)
+        from ixpeobssim.irf.caldb import irf_file_path
+        from ixpeobssim.irf.arf import xEffectiveArea
+        from ixpeobssim.irf.modf import xModulationFactor
+        modf = xModulationFactor(irf_file_path(irf, du, 'modf'))
+        aeff = xEffectiveArea(irf_file_path(irf, du, 'arf', simple_weighting=(weights == 'True'), gray_filter=(gray == 'True')))
         wt = wm if weights == 'True' else numpy.ones(n)
         for i, (a, b) in enumerate(zip(edges[:-1], edges[1:])):
             ref = published(q * wt / wt, u * wt / wt, e, wt, modf(e), aeff(e), acc == 'True', a, b)
